@@ -27,14 +27,14 @@ pub fn def() -> PropDef {
     PropDef {
         id: "C06",
         level: "fault_enumeration",
-        rule: "every history of <= d operations over {insert a/ab/a\\xff, delete prefix a/'', remote older, remote newer, flush, snapshot-read, remove document, re-create document} (family A) and over {register peer 1/2, set policy 1/2, insert a, remove, re-create, flush} (family B) and, after filling the useful-peer cache to its capacity, over {register a new peer 1/2, the oldest / the newest cached peer again, insert a, flush} (family C) on a file-backed store; a baseline run numbers every store access point (hook at Store::tables/modify); then every placement of <= k 'transaction looks older than the commit delay' answers among the points where a write transaction is open, and in every such run a crash image (copy of the database file, live store untouched) at every access point and after every operation; each distinct image is reopened and must show the reference state after j complete operations with last-acknowledged-flush <= j <= operations-started, with records, by-key index, heads, point lookups, namespaces and authors mutually consistent; non-trivial = distinct (image content, window) pairs whose window spans an unacknowledged or in-progress operation",
+        rule: "every history of <= d operations over {insert a/ab/a\\xff, delete prefix a/'', remote older, remote newer, flush, snapshot-read, remove document, re-create document} (family A) and over {register peer 1/2, set policy 1/2, insert a, remove, re-create, flush} (family B) and, after filling the useful-peer cache to its capacity, over {register a new peer 1/2, the oldest / the newest cached peer again, insert a, flush} (family C) and, after 1100 entries below the prefix 'a' have been made durable, over {insert a, delete prefix a, delete prefix '', insert ab, flush} (family D: one operation supersedes more than a thousand entries) on a file-backed store; a baseline run numbers every store access point (hook at Store::tables/modify); then every placement of <= k 'transaction looks older than the commit delay' answers among the points where a write transaction is open, and in every such run a crash image (copy of the database file, live store untouched) at every access point and after every operation; each distinct image is reopened and must show the reference state after j complete operations with last-acknowledged-flush <= j <= operations-started, with records, by-key index, heads, point lookups, namespaces and authors mutually consistent; non-trivial = distinct (image content, window) pairs whose window spans an unacknowledged or in-progress operation",
         assumptions: &[
             "crash = process kill: the image is what the OS holds for the file at that instant; power loss, torn sectors and crashes inside redb's own commit are redb's contract",
             "an extra age-based commit caused by real elapsed time can only move the recovered state forward inside the accepted window, never raise an alarm",
         ],
         bound: |t| match t {
-            Tier::Quick => json!({"histories": "depth <= 4 over 11 operations with <= 1 forced-old answer; depth <= 3 with <= 2", "family_B": "depth <= 3 with <= 2", "family_C": "depth <= 2 with <= 2 after the filling prefix", "forced_old_answers": "<= 2"}),
-            Tier::Thorough => json!({"histories": "depth <= 5 with <= 1 forced-old answer; depth <= 4 with <= 2", "forced_old_answers": "<= 2"}),
+            Tier::Quick => json!({"histories": "depth <= 4 over 11 operations with <= 1 forced-old answer; depth <= 3 with <= 2", "family_B": "depth <= 3 with <= 2", "family_C": "depth <= 2 with <= 2 after the filling prefix", "family_D": "depth <= 2 with <= 1 after 1100 durable entries below one prefix", "forced_old_answers": "<= 2"}),
+            Tier::Thorough => json!({"histories": "depth <= 5 with <= 1 forced-old answer; depth <= 4 with <= 2", "family_B": "depth <= 4 with <= 2", "family_C": "depth <= 3 with <= 2 after the filling prefix", "family_D": "depth <= 3 with <= 2 after 1100 durable entries below one prefix", "forced_old_answers": "<= 2"}),
         },
         run,
         replay,
@@ -66,6 +66,27 @@ pub enum Op {
     /// register useful peer n (family C: a peer cache that is full, so that a registration
     /// inserts one row and evicts another)
     PeerN(u8),
+    /// family D: write n entries below the prefix "a" (keys "a" + two bytes), unobserved
+    Fill(u16),
+}
+
+/// family D: a single operation that supersedes more than a thousand entries
+const FILL_D: u16 = 1100;
+const PREFIX_D: [Op; 2] = [Op::Fill(FILL_D), Op::Flush];
+const OPS_D: [Op; 5] = [Op::InsA, Op::DelA, Op::DelRoot, Op::InsAb, Op::Flush];
+
+fn fill_entries(n: u16) -> Vec<SignedEntry> {
+    static CACHE: std::sync::OnceLock<Vec<SignedEntry>> = std::sync::OnceLock::new();
+    let all = CACHE.get_or_init(|| {
+        (0..FILL_D)
+            .map(|i| {
+                let key = [b'a', (i >> 8) as u8, (i & 0xff) as u8];
+                let (h, l) = Val::X.hash_len();
+                SignedEntry::from_parts(&ns_secret(0), &author(0), &key, iroh_docs::sync::Record::new(h, l, T0 + 5))
+            })
+            .collect()
+    });
+    all[..n as usize].to_vec()
 }
 
 /// family C: the prefix fills the peer cache to its capacity of five and makes that durable
@@ -269,6 +290,19 @@ fn run_history(hist: &[Op], forced: &BTreeSet<u64>, dir: &Path) -> RunResult {
             Op::Flush => {
                 sut.store.flush().expect("flush");
             }
+            Op::Fill(k) => {
+                shared.lock().unwrap().enabled = false;
+                for e in fill_entries(*k) {
+                    let _ = sut.remote(ns, e.clone());
+                    if exists {
+                        model.put(&e);
+                    }
+                }
+                // the filling is not one operation but 1100: it is made durable before the
+                // store is observed again, so that no image can show a part of it
+                sut.store.flush().expect("flush");
+                shared.lock().unwrap().enabled = true;
+            }
             Op::SnapshotRead => {
                 let _ = sut.store.get_many(ns, iroh_docs::store::Query::all()).map(|i| i.count());
             }
@@ -310,7 +344,7 @@ fn run_history(hist: &[Op], forced: &BTreeSet<u64>, dir: &Path) -> RunResult {
         states.push(snap(exists, &model, &peers, policy));
         let mut s = shared.lock().unwrap();
         s.ops_done = i + 1;
-        if matches!(op, Op::Flush | Op::SnapshotRead) {
+        if matches!(op, Op::Flush | Op::SnapshotRead | Op::Fill(_)) {
             s.last_ack = i + 1;
         }
         s.image(u64::MAX);
@@ -638,6 +672,20 @@ fn run(ctx: &Ctx, report: &mut Report) {
             let mut hist: Vec<Op> = PREFIX_C.to_vec();
             hist.extend(seq.iter().map(|&i| OPS_C[i]));
             check_history_from(&hist, PREFIX_C.len(), 2, report, ordinal);
+        });
+    }
+    // family D: one operation supersedes 1100 durable entries
+    let depth_d = if ctx.quick() { 2 } else { 3 };
+    for d in 1..=depth_d {
+        for_each_sequence(OPS_D.len(), d, |seq| {
+            ordinal += 1;
+            if !ctx.mine(ordinal) {
+                return;
+            }
+            let mut hist: Vec<Op> = PREFIX_D.to_vec();
+            hist.extend(seq.iter().map(|&i| OPS_D[i]));
+            report.count("family_D_histories", 1);
+            check_history_from(&hist, PREFIX_D.len(), if ctx.quick() { 1 } else { 2 }, report, ordinal);
         });
     }
     report.fact("deviation_bound_completed", json!(2));
